@@ -11,6 +11,7 @@ Lines (tab separated):
   twa.val                  <outcome>                  outcome ∈ ok err
 state := `none` | `vals=..;idx=..;twa=..;act=..;disc=..`
 -/
+-- DRIVER: prefix=twa ns=Comdex.Drv.Twa
 namespace Comdex.Drv.Twa
 open Comdex.Twa Comdex.Line
 
@@ -19,6 +20,8 @@ structure St where
   acc : Int := 0
   s : Option Rec := none
   samples : List Nat := []   -- ghost: every positive sample since the last reset (for the monitor)
+
+def init : St := {}
 
 def showRec : Option Rec → String
   | none => "none"
